@@ -319,9 +319,19 @@ func (m *MTProto) readMsg() error {
 	return nil
 }
 
-func (m *MTProto) processResponse(msg messages.Common) error {
+func (m *MTProto) processResponse(msg messages.Common) (err error) {
+	// every content-related message must be acknowledged, even if we can't process it (otherwise server
+	// will send it again and again)
+	defer func() {
+		if (msg.GetSeqNo() & 1) != 0 {
+			_, ackErr := m.MakeRequest(&objects.MsgsAck{MsgIDs: []int64{int64(msg.GetMsgID())}})
+			if ackErr != nil && err == nil {
+				err = errors.Wrap(ackErr, "sending ack")
+			}
+		}
+	}()
+
 	var data tl.Object
-	var err error
 	if et, ok := m.expectedTypes.Get(requestMsgID(msg)); ok && len(et) > 0 {
 		data, err = tl.DecodeUnknownObject(msg.GetMsg(), et...)
 	} else {
@@ -334,11 +344,16 @@ func (m *MTProto) processResponse(msg messages.Common) error {
 messageTypeSwitching:
 	switch message := data.(type) {
 	case *objects.MessageContainer:
+		// bad item is not a reason to lose other items of container
+		var itemErr error
 		for _, v := range *message {
 			err := m.processResponse(v)
-			if err != nil {
-				return errors.Wrap(err, "processing item in container")
+			if err != nil && itemErr == nil {
+				itemErr = errors.Wrap(err, "processing item in container")
 			}
+		}
+		if itemErr != nil {
+			return itemErr
 		}
 
 	case *objects.BadServerSalt:
@@ -398,13 +413,6 @@ messageTypeSwitching:
 		}
 		if !processed {
 			m.warnError(errors.New("got nonsystem message from server: " + reflect.TypeOf(message).String()))
-		}
-	}
-
-	if (msg.GetSeqNo() & 1) != 0 {
-		_, err := m.MakeRequest(&objects.MsgsAck{MsgIDs: []int64{int64(msg.GetMsgID())}})
-		if err != nil {
-			return errors.Wrap(err, "sending ack")
 		}
 	}
 
